@@ -284,6 +284,8 @@ func (tb TemporalBound) String() string {
 		t := time.Unix(0, tb.Timestamp).UTC()
 		// Use ISO 8601 format
 		return t.Format("2006-01-02T15:04:05Z")
+	case DurationTemporalBound:
+		return formatDurationBound(tb.Timestamp)
 	case VariableBound:
 		return tb.Variable.String()
 	case NegativeInfinityBound, PositiveInfinityBound:
@@ -293,6 +295,21 @@ func (tb TemporalBound) String() string {
 	default:
 		return "?"
 	}
+}
+
+// formatDurationBound prints a duration bound in the largest unit of the
+// source syntax (d, h, m, s, ms) that represents it exactly.
+func formatDurationBound(nanos int64) string {
+	d := time.Duration(nanos)
+	for _, u := range []struct {
+		unit   time.Duration
+		suffix string
+	}{{24 * time.Hour, "d"}, {time.Hour, "h"}, {time.Minute, "m"}, {time.Second, "s"}} {
+		if d%u.unit == 0 {
+			return fmt.Sprintf("%d%s", int64(d/u.unit), u.suffix)
+		}
+	}
+	return fmt.Sprintf("%dms", int64(d/time.Millisecond))
 }
 
 // Equals returns true if two temporal bounds are equal.
